@@ -62,12 +62,15 @@ func step(line string) string {
 		mode = mode[:i]
 	}
 	variant := "w"
+	golden, haveGolden := "", false
 	for i, m := range strings.Split(mode, ",") {
 		switch {
 		case i == 0:
 			variant = m
 		case m == "g":
 			validArgs = true
+		case strings.HasPrefix(m, "y="):
+			golden, haveGolden = m[2:], true
 		}
 	}
 	buf := buffer.New()
@@ -147,12 +150,18 @@ func step(line string) string {
 		} else if len(firstBytes) < 200000 {
 			firstBytes[prog] = hx.Hex(b)
 		}
+		if haveGolden && hx.Hex(b) != golden {
+			flags = append(flags, "GOLDEN")
+		}
 		if haveExpect && w != expect {
 			flags = append(flags, "ROUNDTRIP")
 		}
 		if haveExpect && (err != nil || n != len(b)) {
 			flags = append(flags, "ROUNDTRIP-PARSE")
 		}
+	}
+	if haveGolden && !res.Built {
+		flags = append(flags, "GOLDEN-NOBUILD")
 	}
 	if haveExpect && !res.Built {
 		flags = append(flags, "ROUNDTRIP-NOBUILD")
